@@ -366,4 +366,33 @@ private def exW : World := { members := [(0, 12), (1, 7), (2, 33)], cidHash := [
 example : isClosest exW 0 (some 1) 5 = true ∧ isClosest exW 2 (some 1) 5 = false ∧
     isClosest exW 1 none 5 = false ∧ (others exW 0 (some 1)) = [2] := by decide
 
+/-! ### the handler loop is memoryless -/
+
+/-- The last alert of any history is handled exactly as `onAlert` prescribes for the pinset the
+    earlier alerts left behind, with the world of *its own* time. -/
+theorem handler_memoryless (pc : PeerCfg) (st : PinMap) (evs : List AlertEv) (w : World) (f : Nat) (ch : Chosen) :
+    handleAlerts pc st (evs ++ [.ping w f ch]) = (onAlert w pc f ch (handleAlerts pc st evs)).st := by
+  simp [handleAlerts, List.foldl_append, handleEv]
+
+/-- Earlier alerts that changed nothing (skipped, or handled while there was nothing to re-pin,
+    under whatever peerset) do not influence how a later alert is handled. -/
+theorem earlier_inert_alerts_irrelevant (pc : PeerCfg) (st : PinMap) (evs : List AlertEv) (w : World) (f : Nat)
+    (ch : Chosen) (hin : ∀ e ∈ evs, ∀ s, handleEv pc s e = s) :
+    handleAlerts pc st (evs ++ [.ping w f ch]) = (onAlert w pc f ch st).st := by
+  rw [handler_memoryless]
+  suffices h : handleAlerts pc st evs = st by rw [h]
+  induction evs generalizing st with
+  | nil => rfl
+  | cons e es ih =>
+    simp only [handleAlerts, List.foldl_cons]
+    rw [hin e (by simp) st]
+    exact ih st (fun e' he' => hin e' (by simp [he']))
+
+theorem skipped_inert (pc : PeerCfg) (s : PinMap) : handleEv pc s .skipped = s := rfl
+
+private def exBase : C04.Cfg :=
+  { follower := false, defMin := 1, defMax := 1, desc := false, peers := [], paths := [], blocks := [] }
+private def exPc : PeerCfg := { self := 0, follower := false, disableRepin := false, base := exBase }
+example : handleAlerts exPc [] [.skipped, .ping exW 1 (fun _ => [])] = [] := by decide
+
 end CV.C10
